@@ -565,7 +565,7 @@ class StmtExec(Exec):
         return outs
 
     def rewrap(self, itv, rest):
-        return DictItems(rest) if isinstance(itv, DictItems) else rest
+        return DictItems(rest, itv.mode) if isinstance(itv, DictItems) else rest
 
     def finish_loop(self, st, pending, s):
         if pending is not None:
